@@ -415,6 +415,90 @@ fn run_reg(inp: &Value) -> Vec<Value> {
     out
 }
 
+/// offset family: values off + a/unit, off + b/unit in the float type of the case; only the scores that are
+/// invariant under a common shift are logged (MAPE and MSLE are not and are left to the un-shifted families)
+macro_rules! regs_events {
+    ($f:ty, $ft:expr, $va:expr, $vb:expr, $exact:expr, $p:expr, $out:expr) => {{
+        let a: Array1<$f> = Array1::from($va.iter().map(|x| *x as $f).collect::<Vec<$f>>());
+        let b: Array1<$f> = Array1::from($vb.iter().map(|x| *x as $f).collect::<Vec<$f>>());
+        let n = a.len();
+        let recs = Array2::<$f>::zeros((n, 1));
+        let da = DatasetBase::new(recs.clone(), a.clone());
+        let db = DatasetBase::new(recs.clone(), b.clone());
+        macro_rules! one {
+            ($form:expr, $x:expr, $y:expr) => {{
+                let r = guarded(|| {
+                    json!({"ev": "regs", "ft": $ft, "form": $form, "p": $p, "exact": $exact,
+                        "max": res($x.max_error($y), num),
+                        "mae": res($x.mean_absolute_error($y), num),
+                        "mse": res($x.mean_squared_error($y), num),
+                        "medae": res($x.median_absolute_error($y), num),
+                        "r2": res($x.r2($y), num),
+                        "evar": res($x.explained_variance($y), num)})
+                });
+                match r {
+                    Ok(v) => $out.push(v),
+                    Err(msg) => $out.push(panic_event("regression_offset", &msg)),
+                }
+            }};
+        }
+        one!("aa", a, &b);
+        one!("vv", a.view(), &b.view());
+        one!("da", da, &b);
+        one!("ad", a, &db);
+        one!("dd", da, &db);
+        // multi-target: two identical columns, the second column's scores are logged
+        let a2: Array2<$f> = Array2::from_shape_fn((n, 2), |(i, _)| a[i]);
+        let b2: Array2<$f> = Array2::from_shape_fn((n, 2), |(i, _)| b[i]);
+        let r = guarded(|| {
+            let second = |r: Result<Array1<$f>, linfa::Error>| -> Value {
+                match r {
+                    Ok(v) if v.len() == 2 => num(v[1] as f64),
+                    _ => tagged("err", 0),
+                }
+            };
+            json!({"ev": "regs", "ft": $ft, "form": "mt", "p": $p, "exact": $exact,
+                "max": second(a2.max_error(&b2)),
+                "mae": second(a2.mean_absolute_error(&b2)),
+                "mse": second(a2.mean_squared_error(&b2)),
+                "medae": second(a2.median_absolute_error(&b2)),
+                "r2": second(a2.r2(&b2)),
+                "evar": second(a2.explained_variance(&b2))})
+        });
+        match r {
+            Ok(v) => $out.push(v),
+            Err(msg) => $out.push(panic_event("multi_regression_offset", &msg)),
+        }
+    }};
+}
+
+fn run_regs(inp: &Value) -> Vec<Value> {
+    let a = ivec(&inp["a"]);
+    let b = ivec(&inp["b"]);
+    let unit = geti(inp, "unit") as f64;
+    let off: f64 = gets(inp, "off").parse().expect("offset");
+    let ft = gets(inp, "ft").to_string();
+    let perm = get_perm(inp, a.len());
+    let mut out = Vec::new();
+    let mut variants = vec![(0i64, a.clone(), b.clone())];
+    if !is_identity(&perm) {
+        variants.push((1, permute(&a, &perm), permute(&b, &perm)));
+    }
+    for (p, x, y) in variants {
+        let va: Vec<f64> = x.iter().map(|k| off + (*k as f64) / unit).collect();
+        let vb: Vec<f64> = y.iter().map(|k| off + (*k as f64) / unit).collect();
+        // the generator promises exactly representable inputs; recorded so that the specification can insist on it
+        let exact64 = x.iter().zip(va.iter()).chain(y.iter().zip(vb.iter())).all(|(k, v)| (*v - off) * unit == *k as f64);
+        if ft == "f32" {
+            let exact = exact64 && va.iter().chain(vb.iter()).all(|v| (*v as f32) as f64 == *v);
+            regs_events!(f32, "f32", va, vb, exact, p, out);
+        } else {
+            regs_events!(f64, "f64", va, vb, exact64, p, out);
+        }
+    }
+    out
+}
+
 macro_rules! mreg_events {
     ($f:ty, $ft:expr, $a:expr, $b:expr, $p:expr, $out:expr) => {{
         // $a, $b: Vec<Vec<i64>> as lists of columns
@@ -603,6 +687,7 @@ fn main() {
             "roc" => run_roc(inp),
             "rocu" => run_rocu(inp),
             "reg" => run_reg(inp),
+            "regs" => run_regs(inp),
             "mreg" => run_mreg(inp),
             "sil" => run_sil(inp),
             "pear" => run_pear(inp),
